@@ -107,6 +107,9 @@ func (s *Spec) GenValue(t *Type, r *HashRng, leafPath string, sink FileSink, dep
 		if s.EmptyPct > 0 && depth == 0 && r.Pct(s.EmptyPct) {
 			n = 0
 		}
+		if s.ForceLen > 0 && depth == 0 {
+			n = s.ForceLen - 1
+		}
 		out := make([]interface{}, 0, n)
 		for i := 0; i < n; i++ {
 			out = append(out, s.GenValue(t.Elem, r, fmt.Sprintf("%s.%d", leafPath, i), sink, depth+1))
@@ -122,6 +125,9 @@ func (s *Spec) GenValue(t *Type, r *HashRng, leafPath string, sink FileSink, dep
 		}
 		if s.EmptyPct > 0 && depth == 0 && r.Pct(s.EmptyPct) {
 			n = 0
+		}
+		if s.ForceLen > 0 && depth == 0 {
+			n = s.ForceLen - 1
 		}
 		pool := s.KeyPool
 		if len(pool) == 0 {
